@@ -328,6 +328,8 @@ impl WalWriter {
             ))
         })?;
 
+        #[cfg(feature = "verif-hooks")]
+        crate::verif_hooks::crash_point("wal.write.begin");
         // Write entry size first (for recovery)
         let size_bytes = (serialized.len() as u32).to_le_bytes();
         self.file.write_all(&size_bytes).map_err(|e| {
@@ -336,6 +338,8 @@ impl WalWriter {
             ))
         })?;
 
+        #[cfg(feature = "verif-hooks")]
+        crate::verif_hooks::crash_point("wal.write.after_size");
         // Write entry data
         self.file.write_all(&serialized).map_err(|e| {
             P2PError::Storage(StorageError::Database(
@@ -343,6 +347,8 @@ impl WalWriter {
             ))
         })?;
 
+        #[cfg(feature = "verif-hooks")]
+        crate::verif_hooks::crash_point("wal.write.after_data");
         self.current_size += 4 + serialized.len() as u64;
         self.entry_count += 1;
 
@@ -410,6 +416,8 @@ impl WalWriter {
             ))
         })?;
 
+        #[cfg(feature = "verif-hooks")]
+        crate::verif_hooks::crash_point("wal.rotate.after_sync");
         // Rename to timestamped file
         let timestamp = current_timestamp();
         let rotated_path = self
@@ -421,6 +429,8 @@ impl WalWriter {
             ))
         })?;
 
+        #[cfg(feature = "verif-hooks")]
+        crate::verif_hooks::crash_point("wal.rotate.after_rename");
         // Create new WAL file
         self.file = OpenOptions::new()
             .create(true)
@@ -432,6 +442,8 @@ impl WalWriter {
                 ))
             })?;
 
+        #[cfg(feature = "verif-hooks")]
+        crate::verif_hooks::crash_point("wal.rotate.after_create");
         self.current_size = 0;
         self.entry_count = 0;
 
@@ -771,13 +783,19 @@ impl<T: Serialize + for<'de> Deserialize<'de> + Clone + PartialEq + Send + Sync 
                     format!("Failed to serialize header: {e}").into(),
                 ))
             })?;
+            #[cfg(feature = "verif-hooks")]
+            crate::verif_hooks::crash_point("checkpoint.tmp_created");
             let header_size = (header_data.len() as u32).to_le_bytes();
             file.write_all(&header_size)?;
             file.write_all(&header_data)?;
 
+            #[cfg(feature = "verif-hooks")]
+            crate::verif_hooks::crash_point("checkpoint.after_header");
             // Write snapshot data
             file.write_all(&snapshot_data)?;
 
+            #[cfg(feature = "verif-hooks")]
+            crate::verif_hooks::crash_point("checkpoint.after_data");
             file.sync_all().map_err(|e| {
                 P2PError::Storage(StorageError::Database(
                     format!("Failed to sync snapshot: {e}").into(),
@@ -785,6 +803,8 @@ impl<T: Serialize + for<'de> Deserialize<'de> + Clone + PartialEq + Send + Sync 
             })?;
         }
 
+        #[cfg(feature = "verif-hooks")]
+        crate::verif_hooks::crash_point("checkpoint.after_sync");
         // Atomic rename
         std::fs::rename(&temp_path, &snapshot_path).map_err(|e| {
             P2PError::Storage(StorageError::Database(
@@ -792,12 +812,18 @@ impl<T: Serialize + for<'de> Deserialize<'de> + Clone + PartialEq + Send + Sync 
             ))
         })?;
 
+        #[cfg(feature = "verif-hooks")]
+        crate::verif_hooks::crash_point("checkpoint.after_rename");
         // Clean up old WAL files
         self.cleanup_old_wal_files(last_transaction_id).await?;
 
+        #[cfg(feature = "verif-hooks")]
+        crate::verif_hooks::crash_point("checkpoint.after_wal_cleanup");
         // Clean up old snapshots
         self.cleanup_old_snapshots().await?;
 
+        #[cfg(feature = "verif-hooks")]
+        crate::verif_hooks::crash_point("checkpoint.done");
         Ok(())
     }
 
@@ -1248,6 +1274,8 @@ impl<T: Serialize + for<'de> Deserialize<'de> + Clone + PartialEq + Send + Sync 
                         format!("Failed to remove old WAL: {e}").into(),
                     ))
                 })?;
+                #[cfg(feature = "verif-hooks")]
+                crate::verif_hooks::crash_point("cleanup.wal.removed");
             }
         }
 
@@ -1305,6 +1333,8 @@ impl<T: Serialize + for<'de> Deserialize<'de> + Clone + PartialEq + Send + Sync 
                         format!("Failed to remove old snapshot: {e}").into(),
                     ))
                 })?;
+                #[cfg(feature = "verif-hooks")]
+                crate::verif_hooks::crash_point("cleanup.snapshot.removed");
             }
         }
 
